@@ -436,6 +436,59 @@ fn enc_finish_slice() {
 
 
 // ------------------------------------------------------------------------------------------------
+// L2 for EVERY length: finish_encoding only looks at buf.len() and writes buf[..5], so the slice handed to it here is fabricated
+// with an arbitrary length over an 8-byte allocation (no byte beyond index 4 is ever touched: CBMC's pointer checks are on and
+// would report it). Decides the exact limit comparison and the > 4 GiB arm for all usize lengths and all limits.
+// ------------------------------------------------------------------------------------------------
+#[kani::proof]
+#[kani::unwind(8)]
+#[kani::stub(alloc::fmt::format, fmt_stub)]
+fn enc_finish_any_len() {
+    let mut raw: [u8; 8] = kani::any();
+    let orig = raw;
+    let total: usize = kani::any();
+    kani::assume(total >= 5 && total <= isize::MAX as usize);
+    let max: Option<usize> = kani::any();
+    let which: u8 = kani::any();
+    let enc = match which % 4 {
+        0 => None,
+        1 => Some(CompressionEncoding::Gzip),
+        2 => Some(CompressionEncoding::Deflate),
+        _ => Some(CompressionEncoding::Zstd),
+    };
+    let comp = enc.is_some();
+    let slice: &mut [u8] = unsafe { core::mem::transmute::<(*mut u8, usize), &mut [u8]>((raw.as_mut_ptr(), total)) };
+    let r = finish_encoding(enc, max, slice);
+    let len = total - 5;
+    match &r {
+        Ok(()) => {
+            kani::cover!(len > 0xFFFF, "accepted, large");
+            assert!(len <= limit_of(max), "C06: message over the send limit accepted");
+            assert!(len <= u32::MAX as usize, "C06: message over 4 GiB accepted (length prefix would wrap)");
+            assert!(raw[0] == comp as u8, "C03: compressed-flag does not say whether an encoding is in force");
+            assert!(raw[1] == (len >> 24) as u8 && raw[2] == (len >> 16) as u8 && raw[3] == (len >> 8) as u8 && raw[4] == len as u8,
+                    "C03: length prefix is not BE32(len)");
+            assert!(raw[5] == orig[5] && raw[6] == orig[6] && raw[7] == orig[7], "C03: payload bytes modified by finish_encoding");
+        }
+        Err(s) => {
+            if len > limit_of(max) {
+                kani::cover!(true, "over the limit");
+                // over the limit AND over 4 GiB: the statement allows either code
+                assert!(s.code() == Code::OutOfRange || (len > u32::MAX as usize && s.code() == Code::ResourceExhausted),
+                        "C06: oversized outgoing message must be OUT_OF_RANGE");
+            } else {
+                kani::cover!(true, "over 4 GiB");
+                assert!(len > u32::MAX as usize, "C06: message within the send limit and 4 GiB refused");
+                assert!(s.code() == Code::ResourceExhausted, "C06: outgoing message over 4 GiB must be RESOURCE_EXHAUSTED");
+            }
+            assert!(raw[0] == orig[0] && raw[1] == orig[1] && raw[2] == orig[2] && raw[3] == orig[3] && raw[4] == orig[4],
+                    "C06: a refused message's frame prefix was written");
+        }
+    }
+    core::mem::forget(r);
+}
+
+// ------------------------------------------------------------------------------------------------
 // S1 / W2: EncodeBody::poll_frame, one step: exactly one trailers block on a server, nothing after it, none on a client.
 // Status::to_header_map is replaced by a recorder returning an empty map (the header encoding itself is C04's subject).
 // ------------------------------------------------------------------------------------------------
